@@ -108,3 +108,127 @@ package sm4
 //@   (requires (bvsge (len dst) 16))
 //@   (ensures block (= (blk128 dst) (sm4.crypt (old (blk128 src)) (old (row (field c subkeys))) (off (field c subkeys)) true)))
 //@   (modifies (cells dst 0 16) (cells (field c block1) 0 4) (cells (field c block2) 0 16)))
+
+//@ (defmacro allcells (s a body) (forall ((a B64)) (=> (bvult (bvsub a (off s)) (len s)) body)))
+
+//@ (func pkcs7Padding
+//@   (uses "modes")
+//@   (fresh result)
+//@   (ensures len (= (len result) (bvadd (len src) (pkcs7.padlen (len src)))))
+//@   (ensures content (allcells result a
+//@       (= (select (row result) a) (pkcs7.byte (old (row src)) (off src) (len src) (bvsub a (off result)))))))
+
+//@ (func pkcs7UnPadding
+//@   (uses "modes")
+//@   (requires callers (=> (and (bvugt (len src) 0) (bvult (len src) 16)) (= (at src (bvsub (len src) 1)) #x00)))
+//@   (returns (obj result.0) (ite (pkcs7.valid (old (row src)) (off src) (len src)) (obj src) 0))
+//@   (returns (off result.0) (ite (pkcs7.valid (old (row src)) (off src) (len src)) (off src) 0))
+//@   (returns (len result.0) (ite (pkcs7.valid (old (row src)) (off src) (len src))
+//@                                (bvsub (len src) (pkcs7.p (old (row src)) (off src) (len src))) 0))
+//@   (ensures ok (=> (pkcs7.valid (old (row src)) (off src) (len src)) (isnil result.1)))
+//@   (ensures bad (=> (not (pkcs7.valid (old (row src)) (off src) (len src))) (not (isnil result.1))))
+//@   (loop 1
+//@     (invariant range (and (bvsle 0 i) (bvsle i unpadding)))
+//@     (invariant seen (forall ((j B64)) (=> (bvult j i) (= (at pad j) ((_ extract 7 0) unpadding)))))
+//@     (decreases (bvsub unpadding i))))
+
+//@ (func SetIV
+//@   (ensures bad (=> (not (= (len iv) 16)) (not (isnil result))))
+//@   (ensures ok (=> (= (len iv) 16) (and (isnil result) (= (global "sm4.IV") iv))))
+//@   (modifies (global "sm4.IV")))
+
+//@ (defmacro MK () (old (blk128 key)))
+//@ (defmacro cph () (payload c "*sm4.Sm4Cipher"))
+
+//@ (defmacro subk () (field (cph) subkeys))
+//@ (defmacro keysinv () (forall ((j B64)) (=> (bvult j 32)
+//@      (= (select (row (subk)) (bvadd (off (subk)) j)) (select (sm4.ksrow (MK)) (bvadd 0 j))))))
+//@ (defmacro extfact (d) (apply-lemma sm4.rounds_ext (r1 (row (subk))) (o1 (off (subk))) (r2 (sm4.ksrow (MK))) (o2 0) (dec d) (n 32)))
+
+//@ (func Sm4Ecb
+//@   (uses "sm4" "modes")
+//@   (ensures keylen (=> (not (= (len key) 16)) (and (isnil out) (not (isnil err)))))
+//@   (ensures noerr (=> (= (len key) 16) (isnil err)))
+//@   (ensures enclen (=> (and (= (len key) 16) mode) (= (len out) (bvadd (len in) (pkcs7.padlen (len in))))))
+//@   (ensures enc (=> (and (= (len key) 16) mode)
+//@       (forall ((k B64)) (=> (bvult k (bvudiv (len out) 16))
+//@          (= (blk.at (row out) (bvadd (off out) (bvmul 16 k)))
+//@             (sm4.enc (MK) (pkcs7.blk (old (row in)) (off in) (len in) k)))))))
+//@   (ensures dec (=> (and (= (len key) 16) (not mode) (not (isnil out)))
+//@       (forall ((k B64)) (=> (bvult k (bvudiv (len out) 16))
+//@          (= (blk.at (row out) (bvadd (off out) (bvmul 16 k)))
+//@             (sm4.dec (MK) (blk.at (old (row in)) (bvadd (off in) (bvmul 16 k)))))))))
+//@   (loop 1
+//@     (invariant range (and (bvsle 0 i) (bvsle i (bvsdiv (len inData) 16))))
+//@     (invariant keys (keysinv))
+//@     (apply (extfact false))
+//@     (invariant done (forall ((k B64)) (=> (bvult k i)
+//@          (= (blk.at (row out) (bvadd (off out) (bvmul 16 k)))
+//@             (sm4.enc (MK) (pkcs7.blk (old (row in)) (off in) (len in) k))))))
+//@     (assert input (= (blk128 in_tmp) (pkcs7.blk (old (row in)) (off in) (len in) i)))
+//@     (assert cipher (= (blk128 out_tmp) (sm4.enc (MK) (blk128 in_tmp))))
+//@     (assert stored (= (blk.at (row out) (bvadd (off out) (bvmul 16 i))) (blk128 out_tmp)))
+//@     (assert kept (forall ((k B64)) (=> (bvult k i)
+//@          (= (blk.at (row out) (bvadd (off out) (bvmul 16 k)))
+//@             (sm4.enc (MK) (pkcs7.blk (old (row in)) (off in) (len in) k))))))
+//@     (decreases (bvsub (bvsdiv (len inData) 16) i)))
+//@   (loop 2
+//@     (invariant range (and (bvsle 0 i) (bvsle i (bvsdiv (len inData) 16))))
+//@     (invariant keys (keysinv))
+//@     (apply (extfact true))
+//@     (invariant zeros (forall ((a B64)) (=> (bvuge (bvsub a (off out)) (bvmul 16 i)) (= (select (row out) a) #x00))))
+//@     (invariant done (forall ((k B64)) (=> (bvult k i)
+//@          (= (blk.at (row out) (bvadd (off out) (bvmul 16 k)))
+//@             (sm4.dec (MK) (blk.at (old (row in)) (bvadd (off in) (bvmul 16 k))))))))
+//@     (assert input (= (blk128 in_tmp) (blk.at (old (row in)) (bvadd (off in) (bvmul 16 i)))))
+//@     (assert cipher (= (blk128 out_tmp) (sm4.dec (MK) (blk128 in_tmp))))
+//@     (assert stored (= (blk.at (row out) (bvadd (off out) (bvmul 16 i))) (blk128 out_tmp)))
+//@     (assert kept (forall ((k B64)) (=> (bvult k i)
+//@          (= (blk.at (row out) (bvadd (off out) (bvmul 16 k)))
+//@             (sm4.dec (MK) (blk.at (old (row in)) (bvadd (off in) (bvmul 16 k))))))))
+//@     (decreases (bvsub (bvsdiv (len inData) 16) i))))
+
+//@ (func Sm4Cbc
+//@   (uses "sm4" "modes")
+//@   (requires ivlen (= (len (global "sm4.IV")) 16))
+//@   (ensures keylen (=> (not (= (len key) 16)) (and (isnil out) (not (isnil err)))))
+//@   (ensures noerr (=> (= (len key) 16) (isnil err)))
+//@   (ensures enclen (=> (and (= (len key) 16) mode) (= (len out) (bvadd (len in) (pkcs7.padlen (len in))))))
+//@   (loop 1
+//@     (invariant range (and (bvsle 0 i) (bvsle i (bvsdiv (len inData) 16))))
+//@     (invariant ivlen (= (len iv) 16))
+//@     (decreases (bvsub (bvsdiv (len inData) 16) i)))
+//@   (loop 2
+//@     (invariant range (and (bvsle 0 i) (bvsle i (bvsdiv (len inData) 16))))
+//@     (invariant zeros (forall ((a B64)) (=> (bvuge (bvsub a (off out)) (bvmul 16 i)) (= (select (row out) a) #x00))))
+//@     (invariant ivlen (= (len iv) 16))
+//@     (decreases (bvsub (bvsdiv (len inData) 16) i))))
+
+//@ (func Sm4CFB
+//@   (uses "sm4" "modes")
+//@   (requires ivlen (= (len (global "sm4.IV")) 16))
+//@   (ensures keylen (=> (not (= (len key) 16)) (and (isnil out) (not (isnil err)))))
+//@   (ensures noerr (=> (= (len key) 16) (isnil err)))
+//@   (ensures enclen (=> (and (= (len key) 16) mode) (= (len out) (bvadd (len in) (pkcs7.padlen (len in))))))
+//@   (loop 1
+//@     (invariant range (and (bvsle 0 i) (bvsle i (bvsdiv (len inData) 16))))
+//@     (invariant cblen (= (len cipherBlock) 16))
+//@     (decreases (bvsub (bvsdiv (len inData) 16) i)))
+//@   (loop 2
+//@     (invariant range (and (bvsle 0 i) (bvsle i (bvsdiv (len inData) 16))))
+//@     (invariant zeros (forall ((a B64)) (=> (bvuge (bvsub a (off out)) (bvmul 16 i)) (= (select (row out) a) #x00))))
+//@     (decreases (bvsub (bvsdiv (len inData) 16) i))))
+
+//@ (func Sm4OFB
+//@   (uses "sm4" "modes")
+//@   (requires ivlen (= (len (global "sm4.IV")) 16))
+//@   (ensures keylen (=> (not (= (len key) 16)) (and (isnil out) (not (isnil err)))))
+//@   (ensures noerr (=> (= (len key) 16) (isnil err)))
+//@   (ensures enclen (=> (and (= (len key) 16) mode) (= (len out) (bvadd (len in) (pkcs7.padlen (len in))))))
+//@   (loop 1
+//@     (invariant range (and (bvsle 0 i) (bvsle i (bvsdiv (len inData) 16))))
+//@     (decreases (bvsub (bvsdiv (len inData) 16) i)))
+//@   (loop 2
+//@     (invariant range (and (bvsle 0 i) (bvsle i (bvsdiv (len inData) 16))))
+//@     (invariant zeros (forall ((a B64)) (=> (bvuge (bvsub a (off out)) (bvmul 16 i)) (= (select (row out) a) #x00))))
+//@     (decreases (bvsub (bvsdiv (len inData) 16) i))))
